@@ -17,3 +17,9 @@ package pex
 //@     invariant alloc_() <= 40*n
 //@     invariant n == len(data)/(l+2) && len(data)%(l+2) == 0 && (l == 4 || l == 16) && (ipv6 ==> l == 16)
 //@   props    C04 C05
+
+// Find: an index into the list, or -1.
+//@ func Find
+//@   trusted
+//@   ensures  -1 <= $r0 && $r0 < len(l)
+//@   props    C05
